@@ -641,4 +641,79 @@ theorem fitterFit_wf_of_loop (S : Schema) (hdet : DetS S) (hfill : FillersOK S) 
       exact ⟨⟨hw1, hw2⟩, hw3 _ _ _ _ _ _ _ rfl⟩
     | _ => simp [Step.sliceOf] at hs
 
+/-! ### `replace_step` as a whole -/
+
+theorem replaceStep_wf_left (S : Schema) (doc : Node) (f t : Nat) (sl : Slice) (st : Step)
+    (hsl : sl.openStart ≤ spineL sl.content) (h : replaceStep S doc f t sl = .ok (some st)) :
+    ∃ sl', st.sliceOf = some sl' ∧ sl'.openStart ≤ spineL sl'.content ∧
+      (∀ F T G1 G2 sl ins b, st = .replaceAround F T G1 G2 sl ins b → (ins : Int) ≤ sl.size) := by
+  unfold replaceStep at h
+  split at h
+  · simp [pure, Except.pure] at h
+  · split at h
+    · rename_i rf rt hf ht
+      split at h
+      · simp [throw, throwThe, MonadExceptOf.throw] at h
+      · have := pure_ok h
+        simp only [Option.some.injEq] at this
+        subst this
+        exact ⟨sl, rfl, hsl, by intro F T G1 G2 sl ins b hst; cases hst⟩
+      · exact fitterFit_wf_left S hf rt sl _ st h
+    · simp [throw, throwThe, MonadExceptOf.throw] at h
+
+/-- every step `replace_step` emits for a **deletion** is well-formed -/
+theorem replaceStep_empty_wf (S : Schema) (hdet : DetS S) (hfill : FillersOK S) (doc : Node) (f t : Nat)
+    (hv : S.checkNode doc = true) (hattrs : S.nodeAttrsOK doc = true) (st : Step)
+    (h : replaceStep S doc f t Slice.empty = .ok (some st)) : StepWF st = true := by
+  unfold replaceStep at h
+  split at h
+  · simp [pure, Except.pure] at h
+  · split at h
+    · rename_i rf rt hf ht
+      split at h
+      · simp [throw, throwThe, MonadExceptOf.throw] at h
+      · have := pure_ok h
+        simp only [Option.some.injEq] at this
+        subst this
+        rfl
+      · obtain ⟨st0, h0, hu, hfr, hlen, hsp, _⟩ := fitInit_ok S hf hv Slice.empty
+        have hne : st0.frontier ≠ [] := by
+          intro h; rw [h] at hlen; simp at hlen
+        exact fitterFit_wf_of_loop S hdet hfill hf ht hattrs Slice.empty _ st0 st0 h0 (fitLoop_empty S _ st0 hu)
+          hfr hne (by rw [hlen, Nat.add_sub_cancel]; exact hsp) st h
+    · simp [throw, throwThe, MonadExceptOf.throw] at h
+
+/-- every step `replace_step` emits for a **closed slice of leaf / text nodes** is well-formed -/
+theorem replaceStep_inline_wf (S : Schema) (hdet : DetS S) (hfill : FillersOK S) (hw : WrapOK S)
+    (doc : Node) (f t : Nat) (sl : Slice) (hsl : sl.inlineLeaves S = true)
+    (hv : S.checkNode doc = true) (hattrs : S.nodeAttrsOK doc = true) (st : Step)
+    (h : replaceStep S doc f t sl = .ok (some st)) : StepWF st = true := by
+  have hsl' := hsl
+  simp only [Slice.inlineLeaves, Bool.and_eq_true, beq_iff_eq, List.all_eq_true, decide_eq_true_eq] at hsl
+  obtain ⟨⟨hos, hoe⟩, hall⟩ := hsl
+  unfold replaceStep at h
+  split at h
+  · simp [pure, Except.pure] at h
+  · split at h
+    · rename_i rf rt hf ht
+      split at h
+      · simp [throw, throwThe, MonadExceptOf.throw] at h
+      · have := pure_ok h
+        simp only [Option.some.injEq] at this
+        subst this
+        simp only [StepWF, Slice.wf, hos, hoe, Nat.zero_le, decide_true, Bool.and_self]
+      · obtain ⟨st0, h0, hu, hfr, hlen, hsp, hsz⟩ := fitInit_ok S hf hv sl
+        have inv0 : LoopInv S rf.depth st0 := by
+          refine ⟨hfr, ?_, by rw [hlen, Nat.add_sub_cancel]; exact hsp, ?_, ?_, by rw [hu]; exact hos,
+            by rw [hu]; exact hoe, by rw [hlen, hsz]; omega⟩
+          · intro h; rw [h] at hlen; simp at hlen
+          · intro n hn; rw [hu] at hn; exact (hall n hn).1
+          · intro n hn; rw [hu] at hn; exact (hall n hn).2
+        obtain ⟨st1, hl, inv⟩ := fitLoop_ok S hdet hfill hw rf.depth (fitFuel S sl) st0 inv0 (by
+          have := fitFuel_enough S st0
+          rw [hu] at this
+          rw [hu]; exact this)
+        exact fitterFit_wf_of_loop S hdet hfill hf ht hattrs sl _ st0 st1 h0 hl inv.frok inv.ne inv.sp st h
+    · simp [throw, throwThe, MonadExceptOf.throw] at h
+
 end PM
